@@ -30,6 +30,32 @@ def decode_battery(seed):
                 v = y + add
                 if v < 2**255:
                     encs.append((v | (hi << 255)).to_bytes(32, "little"))
+    # points whose x-coordinate (or its negation) has structured 51-bit limbs: all-zero / all-ones limbs, l0 next to 0 or to
+    # 2^51-19 ... - the decoder's sign handling and final reductions see exactly these limb patterns in the root it
+    # computes; both sign bits each (x and -x share y)
+    M = 2**51 - 1
+    xs = []
+    for zero_at in ((1,), (2,), (3,), (1, 2), (2, 3), (1, 2, 3), (4,), (0,), (0, 1)):
+        for fill in ("rand", "ones"):
+            for l0 in (None, 0, 1, 2**51 - 19, 2**51 - 18, 2**51 - 1, 17, 18, 19):
+                limbs = [(M if fill == "ones" else rng.randrange(2**51)) for _ in range(5)]
+                for i in zero_at:
+                    limbs[i] = 0
+                if l0 is not None and 0 not in zero_at:
+                    limbs[0] = l0
+                xs.append(sum(l << (51 * i) for i, l in enumerate(limbs)) % P)
+    seen = 0
+    for x in xs:
+        # y^2 = (1 + x^2) / (1 - d x^2)
+        y2 = (1 + x * x) * ref.inv(1 - ref.D * x * x) % P
+        y = ref.sqrt(y2)
+        if y is None or not x:
+            continue
+        seen += 1
+        for xx in (x, P - x):
+            encs.append(ref.ed_encode((xx, y)))
+        if seen >= 48:
+            break
     for _ in range(60):
         encs.append(bytes(rng.randrange(256) for _ in range(32)))
     for l in (0, 1, 31, 33, 64):
